@@ -134,6 +134,16 @@ class DiagLayer:
     def _resolve_snrefs(self, context: SnRefContext) -> None:
         self.diag_layer_raw._resolve_snrefs(context)
 
+    def _invalidate_cached_properties(self) -> None:
+        """Forget everything that has been derived from the set of
+        objects applicable to the diagnostic layer
+
+        This is necessary because the database can be modified and
+        subsequently be refreshed.
+        """
+        for attr_name in ("_prefix_tree", "service_groups", "protocols"):
+            self.__dict__.pop(attr_name, None)
+
     def _get_local_diag_comms(self, odxlinks: OdxLinkDatabase) -> Iterable[DiagComm]:
         """Return the list of locally defined diagnostic communications.
 
